@@ -24,6 +24,10 @@
 //! unknown-tag queries, tag mask algebra, tag-level platform / locale / name filters, statistics that are counts or
 //! size totals, priority analysis and download plans, selections by extension.
 //!
+//! Round 4: a key may be listed more than once (an add repeats the key of a listed file, a re-key takes another file's
+//! key); files keep their own identity in the model. Removal by such a key is judged at the step (and once more on a
+//! copy of the final builder): one entry of the key or all of them leave, every other file stays with its tags.
+//!
 //! Not judged: builder refusals of individual steps (recorded); empty tag
 //! lists in multi-tag queries; padding bits beyond the last file (recorded).
 
@@ -127,7 +131,9 @@ impl Kind {
 #[derive(Clone, Debug)]
 enum Step {
     AddTag { name: String, ttype: u16 },
-    AddFile { id: u32, size: u64, prio: i8 },
+    /// `id` = identity of the file in the model, `key` = number its key bytes are derived from (`key16`). A program
+    /// may list one key several times (the same content at several paths / priorities): then `key` != `id`.
+    AddFile { id: u32, key: u32, size: u64, prio: i8 },
     /// file position, tag position, API variant
     Assoc { f: usize, t: usize, via: u8 },
     Dissoc { f: usize, t: usize },
@@ -140,9 +146,10 @@ enum Step {
     BadRemoveFile { f: usize },
     BadRemoveTag { name: String },
     /// add a file and tag it in the same call (install: add_file_with_tags; download: add_file_with_properties)
-    AddFileTagged { id: u32, size: u64, prio: i8, tags: Vec<usize> },
-    /// download only: the file at position f gets a new encoding key (= a new file id), tag membership stays
-    Rekey { f: usize, id: u32 },
+    AddFileTagged { id: u32, key: u32, size: u64, prio: i8, tags: Vec<usize> },
+    /// download only: the file at position f gets another encoding key (a fresh one or one that another file carries),
+    /// tag membership stays
+    Rekey { f: usize, key: u32 },
     /// builder.clear(): no files, no tags
     Clear,
     /// build -> serialise -> parse -> Builder::from_manifest: the program continues on the rebuilt builder
@@ -153,7 +160,8 @@ impl Step {
     fn json(&self) -> Value {
         match self {
             Step::AddTag { name, ttype } => json!(["tag", name, ttype]),
-            Step::AddFile { id, size, prio } => json!(["file", id, size.to_string(), prio]),
+            Step::AddFile { id, key, size, prio } if key == id => json!(["file", id, size.to_string(), prio]),
+            Step::AddFile { id, key, size, prio } => json!(["file", id, size.to_string(), prio, key]),
             Step::Assoc { f, t, via } => json!(["assoc", f, t, via]),
             Step::Dissoc { f, t } => json!(["dissoc", f, t]),
             Step::RemoveFile { f, via } => json!(["rmfile", f, via]),
@@ -162,8 +170,9 @@ impl Step {
             Step::BadAssoc { f, name } => json!(["bad-assoc", f, name]),
             Step::BadRemoveFile { f } => json!(["bad-rmfile", f]),
             Step::BadRemoveTag { name } => json!(["bad-rmtag", name]),
-            Step::AddFileTagged { id, size, prio, tags } => json!(["file+tags", id, size.to_string(), prio, tags]),
-            Step::Rekey { f, id } => json!(["rekey", f, id]),
+            Step::AddFileTagged { id, key, size, prio, tags } if key == id => json!(["file+tags", id, size.to_string(), prio, tags]),
+            Step::AddFileTagged { id, key, size, prio, tags } => json!(["file+tags", id, size.to_string(), prio, tags, key]),
+            Step::Rekey { f, key } => json!(["rekey", f, key]),
             Step::Clear => json!(["clear"]),
             Step::Reload => json!(["reload"]),
         }
@@ -176,7 +185,7 @@ impl Step {
         let p = |i: usize| a.get(i).and_then(Value::as_i64).map(|x| x as i8);
         Some(match a.first()?.as_str()? {
             "tag" => Step::AddTag { name: s(1)?, ttype: u(2)? as u16 },
-            "file" => Step::AddFile { id: u(1)? as u32, size: big(2)?, prio: p(3)? },
+            "file" => Step::AddFile { id: u(1)? as u32, key: u(4).unwrap_or(u(1)?) as u32, size: big(2)?, prio: p(3)? },
             "assoc" => Step::Assoc { f: u(1)? as usize, t: u(2)? as usize, via: u(3)? as u8 },
             "dissoc" => Step::Dissoc { f: u(1)? as usize, t: u(2)? as usize },
             "rmfile" => Step::RemoveFile { f: u(1)? as usize, via: u(2)? as u8 },
@@ -185,8 +194,8 @@ impl Step {
             "bad-assoc" => Step::BadAssoc { f: u(1)? as usize, name: s(2)? },
             "bad-rmfile" => Step::BadRemoveFile { f: u(1)? as usize },
             "bad-rmtag" => Step::BadRemoveTag { name: s(1)? },
-            "file+tags" => Step::AddFileTagged { id: u(1)? as u32, size: big(2)?, prio: p(3)?, tags: a.get(4)?.as_array()?.iter().filter_map(|x| x.as_u64().map(|x| x as usize)).collect() },
-            "rekey" => Step::Rekey { f: u(1)? as usize, id: u(2)? as u32 },
+            "file+tags" => Step::AddFileTagged { id: u(1)? as u32, key: u(5).unwrap_or(u(1)?) as u32, size: big(2)?, prio: p(3)?, tags: a.get(4)?.as_array()?.iter().filter_map(|x| x.as_u64().map(|x| x as usize)).collect() },
+            "rekey" => Step::Rekey { f: u(1)? as usize, key: u(2)? as u32 },
             "clear" => Step::Clear,
             "reload" => Step::Reload,
             _ => return None,
@@ -200,7 +209,10 @@ impl Step {
 
 #[derive(Clone, Debug)]
 struct MFile {
+    /// identity (tag membership is a set of these)
     id: u32,
+    /// key bytes = key16(key); several files may carry one key
+    key: u32,
     size: u64,
     prio: i8,
 }
@@ -214,6 +226,8 @@ struct MTag {
 struct Model {
     files: Vec<MFile>,
     tags: Vec<MTag>,
+    /// the builder has a remove-by-key entry point (download): `RemoveFile { via: 1 }` names a key, not a position
+    by_key: bool,
 }
 
 fn key16(id: u32) -> [u8; 16] {
@@ -239,7 +253,7 @@ impl Model {
     fn apply(&mut self, s: &Step) {
         match s {
             Step::AddTag { name, ttype } => self.tags.push(MTag { name: name.clone(), ttype: *ttype, files: BTreeSet::new() }),
-            Step::AddFile { id, size, prio } => self.files.push(MFile { id: *id, size: *size, prio: *prio }),
+            Step::AddFile { id, key, size, prio } => self.files.push(MFile { id: *id, key: *key, size: *size, prio: *prio }),
             Step::Assoc { f, t, .. } => {
                 let id = self.files[*f].id;
                 self.tags[*t].files.insert(id);
@@ -248,11 +262,12 @@ impl Model {
                 let id = self.files[*f].id;
                 self.tags[*t].files.remove(&id);
             }
-            Step::RemoveFile { f, .. } => {
-                let id = self.files.remove(*f).id;
-                for t in &mut self.tags {
-                    t.files.remove(&id);
-                }
+            Step::RemoveFile { f, via } => {
+                // removal by key names the key of the file at f. When several files carry it, which of them goes is
+                // left open; the prediction used for generating the rest of the program is the entry listed first
+                // (run_program adopts what the builder really did, see `by_key_removal_outcome`)
+                let pos = if self.by_key && *via == 1 { self.carriers(self.files[*f].key).first().copied().unwrap_or(*f) } else { *f };
+                self.remove_positions(&[pos]);
             }
             Step::RemoveTag { t } => {
                 self.tags.remove(*t);
@@ -262,23 +277,29 @@ impl Model {
                 self.files[*f].prio = *prio;
             }
             Step::BadAssoc { .. } | Step::BadRemoveFile { .. } | Step::BadRemoveTag { .. } | Step::Reload => {}
-            Step::AddFileTagged { id, size, prio, tags } => {
-                self.files.push(MFile { id: *id, size: *size, prio: *prio });
+            Step::AddFileTagged { id, key, size, prio, tags } => {
+                self.files.push(MFile { id: *id, key: *key, size: *size, prio: *prio });
                 for t in tags {
                     self.tags[*t].files.insert(*id);
                 }
             }
-            Step::Rekey { f, id } => {
-                let old = std::mem::replace(&mut self.files[*f].id, *id);
-                for t in &mut self.tags {
-                    if t.files.remove(&old) {
-                        t.files.insert(*id);
-                    }
-                }
-            }
+            Step::Rekey { f, key } => self.files[*f].key = *key,
             Step::Clear => {
                 self.files.clear();
                 self.tags.clear();
+            }
+        }
+    }
+    /// positions of the files that carry this key, ascending
+    fn carriers(&self, key: u32) -> Vec<usize> {
+        (0..self.files.len()).filter(|&i| self.files[i].key == key).collect()
+    }
+    /// the files at these positions (ascending) leave the manifest; later files move down
+    fn remove_positions(&mut self, pos: &[usize]) {
+        for &p in pos.iter().rev() {
+            let id = self.files.remove(p).id;
+            for t in &mut self.tags {
+                t.files.remove(&id);
             }
         }
     }
@@ -350,6 +371,8 @@ struct Gen<'a> {
     next_name: u32,
     nice: Vec<&'static str>,
     reloads: u32,
+    /// 0: every file has its own key; k: one add in k repeats a listed key, a re-key may take another file's key
+    repeat_keys: u64,
 }
 
 impl Gen<'_> {
@@ -374,11 +397,33 @@ impl Gen<'_> {
         } as u16;
         self.push(Step::AddTag { name, ttype });
     }
+    /// Key of a new file: its own, or (in programs that repeat keys: one add in `repeat_keys`) the key of a file that is
+    /// already listed — the same content at a second path (install), the same encoded file at another priority
+    /// (download), a repeated key (size).
+    fn new_key(&mut self) -> u32 {
+        let nf = self.model.files.len();
+        if nf > 0 && self.repeat_keys > 0 && self.rng.chance(1, self.repeat_keys) {
+            let i = if self.rng.bool() { self.rng.usize_below(nf) } else { nf - 1 - self.rng.usize_below(nf.min(3)) };
+            self.model.files[i].key
+        } else {
+            self.next_id
+        }
+    }
     fn add_file(&mut self) {
         self.next_id += 1;
+        let key = self.new_key();
         let size = gen_size(self.rng, self.kind);
         let prio = gen_prio(self.rng);
-        self.push(Step::AddFile { id: self.next_id, size, prio });
+        self.push(Step::AddFile { id: self.next_id, key, size, prio });
+    }
+    /// position of a file whose key is listed more than once, if there is one
+    fn file_with_repeated_key(&mut self) -> Option<usize> {
+        let mut seen: HashMap<u32, u32> = HashMap::new();
+        for f in &self.model.files {
+            *seen.entry(f.key).or_insert(0) += 1;
+        }
+        let c: Vec<usize> = (0..self.model.files.len()).filter(|&i| seen[&self.model.files[i].key] > 1).collect();
+        if c.is_empty() { None } else { Some(c[self.rng.usize_below(c.len())]) }
     }
     fn random_step(&mut self, removal_ok: bool) {
         let nf = self.model.files.len();
@@ -396,18 +441,21 @@ impl Gen<'_> {
             12..=33 => self.add_file(),
             34..=36 if nt > 0 && !is_size => {
                 self.next_id += 1;
+                let key = self.new_key();
                 let size = gen_size(self.rng, self.kind);
                 let prio = gen_prio(self.rng);
                 let k = self.rng.urange(0, nt.min(3));
                 let mut tags: Vec<usize> = (0..nt).collect();
                 self.rng.shuffle(&mut tags);
                 tags.truncate(k);
-                self.push(Step::AddFileTagged { id: self.next_id, size, prio, tags });
+                self.push(Step::AddFileTagged { id: self.next_id, key, size, prio, tags });
             }
             91 if nf > 0 && matches!(self.kind, Kind::Download { .. }) => {
                 let f = if self.rng.chance(1, 3) { nf - 1 } else { self.rng.usize_below(nf) };
                 self.next_id += 1;
-                self.push(Step::Rekey { f, id: self.next_id });
+                // a fresh key, or the key of another file
+                let key = if nf > 1 && self.repeat_keys > 0 && self.rng.chance(1, 4) { self.model.files[(f + 1 + self.rng.usize_below(nf - 1)) % nf].key } else { self.next_id };
+                self.push(Step::Rekey { f, key });
             }
             37..=66 if nf > 0 && nt > 0 => {
                 let f = if self.rng.chance(1, 4) { nf - 1 } else { self.rng.usize_below(nf) };
@@ -427,7 +475,12 @@ impl Gen<'_> {
                     _ => self.rng.usize_below(nf),
                 };
                 let via = self.rng.below(2) as u8;
-                self.push(Step::RemoveFile { f, via });
+                // removal by key (download) is aimed at a key that several files carry in half of the cases where one exists
+                let repeated = if self.model.by_key && self.rng.bool() { self.file_with_repeated_key() } else { None };
+                match repeated {
+                    Some(f) => self.push(Step::RemoveFile { f, via: 1 }),
+                    None => self.push(Step::RemoveFile { f, via }),
+                }
             }
             85..=88 if nt > 0 && removal_ok && !is_size => {
                 let t = self.rng.usize_below(nt);
@@ -467,7 +520,8 @@ struct Program {
 
 /// `n` = exact final file count, `t` = exact final tag count.
 fn gen_program(rng: &mut Rng, kind: Kind, n: usize, t: usize) -> Program {
-    let mut g = Gen { rng, kind, model: Model::default(), steps: Vec::new(), next_id: 0, next_name: 0, nice: NICE_NAMES.to_vec(), reloads: 0 };
+    let mut g = Gen { rng, kind, model: Model { by_key: matches!(kind, Kind::Download { .. }), ..Model::default() }, steps: Vec::new(), next_id: 0, next_name: 0, nice: NICE_NAMES.to_vec(), reloads: 0, repeat_keys: 0 };
+    g.repeat_keys = *g.rng.pick(&[0u64, 0, 0, 4, 10, 25]);
     let is_size = matches!(kind, Kind::Size { .. });
     let body = g.rng.urange(5, 120);
     let removal_ok = g.rng.chance(3, 4);
@@ -754,6 +808,37 @@ fn err_class(e: &dyn std::fmt::Debug) -> String {
     s.split(['(', '{', ' ']).next().unwrap_or("error").to_string()
 }
 
+/// One row per file position: key, size, priority, names of the tags that select the file (in tag order).
+type Row = ([u8; 16], u64, i8, Vec<String>);
+
+fn model_rows(model: &Model) -> Vec<Row> {
+    model.files.iter().map(|f| (key16(f.key), f.size, f.prio, model.tags.iter().filter(|t| t.files.contains(&f.id)).map(|t| t.name.clone()).collect())).collect()
+}
+
+fn builder_rows(x: &DownloadManifestBuilder) -> Vec<Row> {
+    (0..x.entry_count()).filter_map(|i| x.get_file(i).map(|e| (*e.encoding_key.as_bytes(), e.file_size.as_u64(), e.priority, x.get_tags_for_file(i).into_iter().map(str::to_string).collect()))).collect()
+}
+
+/// `remove_file_by_key` for a key that several files carry (positions `carriers` in `before`). Which of them leave is
+/// not fixed by the statement: one of them (the one found first, or another) or all of them. Every file with another
+/// key stays where it was relative to the others, with its size, priority and tags. Returns the positions that left,
+/// or None when what the builder holds afterwards is none of these outcomes.
+fn by_key_removal_outcome(before: &[Row], after: &[Row], carriers: &[usize]) -> Option<Vec<usize>> {
+    let mut candidates: Vec<Vec<usize>> = carriers.iter().map(|&c| vec![c]).collect();
+    candidates.push(carriers.to_vec());
+    candidates.into_iter().find(|gone| before.len() - gone.len() == after.len() && before.iter().enumerate().filter(|(i, _)| !gone.contains(i)).map(|(_, r)| r).eq(after.iter()))
+}
+
+#[allow(clippy::too_many_arguments)]
+fn by_key_violation(ctx: &Ctx, fam: &str, rclass: &str, program: Value, at_step: usize, before: &[Row], after: &[Row], carriers: &[usize]) {
+    let show = |rows: &[Row]| -> Vec<Value> { rows.iter().take(80).map(|r| json!([hex::encode(&r.0[..4]), r.1.to_string(), r.2, r.3])).collect() };
+    ctx.violation(
+        &format!("C19|{fam}|remove_file_by_key(key-listed-more-than-once)|files-left-are-not-the-set-model-minus-one-or-all-entries-of-the-key|{rclass}"),
+        "after removing by a key that several files carry, the builder's files (key, size, priority, tags per position) are neither the previous files minus one entry of that key nor minus all of them: a file with another key was removed, moved or re-tagged",
+        json!({"program": program, "at_step": at_step, "positions_carrying_the_key": carriers, "files_before": before.len(), "files_after": after.len(), "before(key4,size,prio,tags)": show(before), "after(key4,size,prio,tags)": show(after)}),
+    );
+}
+
 fn program_detail(kind: Kind, steps: &[Step]) -> Value {
     json!({"kind": kind.json(), "steps": steps.iter().map(Step::json).collect::<Vec<_>>()})
 }
@@ -764,7 +849,7 @@ fn run_program(rc: &mut RunCtx, kind: Kind, steps: &[Step], rng: &mut Rng) {
     let label = kind.label();
     let fam = kind.family();
     let rclass = removal_class(steps);
-    let mut model = Model::default();
+    let mut model = Model { by_key: matches!(kind, Kind::Download { .. }), ..Model::default() };
     let detail = || program_detail(kind, steps);
 
     // ---- drive the real builder ------------------------------------------------
@@ -805,6 +890,9 @@ fn run_program(rc: &mut RunCtx, kind: Kind, steps: &[Step], rng: &mut Rng) {
     let mut refused_valid: Option<String> = None;
     // install V2: the V2 layout is given to the first manifest that is serialised (at a reload or at the end)
     let mut v2_applied = false;
+    // removal by a key that several files carry: positions (in the model before the step) that the builder removed
+    let mut resolved_removal: Option<Vec<usize>> = None;
+    let mut other_outcome = false;
     for (si, s) in steps.iter().enumerate() {
         rc.cnt.add(
             match s {
@@ -829,7 +917,7 @@ fn run_program(rc: &mut RunCtx, kind: Kind, steps: &[Step], rng: &mut Rng) {
         b = Some(match (cur, s) {
             // ---------------- install ----------------
             (B::I(x), Step::AddTag { name, ttype }) => B::I(x.add_tag(name.clone(), ttype_of(*ttype))),
-            (B::I(x), Step::AddFile { id, size, .. }) => B::I(x.add_file(path_of(*id), ContentKey::from_bytes(key16(*id)), *size as u32)),
+            (B::I(x), Step::AddFile { id, key, size, .. }) => B::I(x.add_file(path_of(*id), ContentKey::from_bytes(key16(*key)), *size as u32)),
             (B::I(x), Step::Assoc { f, t, via }) => {
                 let last = *f + 1 == model.files.len();
                 let r = match via {
@@ -920,10 +1008,10 @@ fn run_program(rc: &mut RunCtx, kind: Kind, steps: &[Step], rng: &mut Rng) {
             (B::I(x), Step::Update { .. }) => B::I(x),
             // ---------------- download ----------------
             (B::D(x), Step::AddTag { name, ttype }) => B::D(x.add_tag(name.clone(), ttype_of(*ttype))),
-            (B::D(x), Step::AddFile { id, size, prio }) => {
+            (B::D(x), Step::AddFile { id, key, size, prio }) => {
                 let idx = model.files.len();
                 let Kind::Download { checksums, flag_size, .. } = kind else { unreachable!() };
-                let mut r = x.add_file(EncodingKey::from_bytes(key16(*id)), *size, *prio);
+                let mut r = x.add_file(EncodingKey::from_bytes(key16(*key)), *size, *prio);
                 if id % 3 == 0 {
                     // the combined setter must do what the two single setters do
                     let flags = (flag_size > 0 && id % 2 == 0).then(|| vec![*id as u8; flag_size as usize]);
@@ -962,10 +1050,29 @@ fn run_program(rc: &mut RunCtx, kind: Kind, steps: &[Step], rng: &mut Rng) {
                 }
             },
             (B::D(mut x), Step::RemoveFile { f, via }) => {
-                let ok = if *via == 1 { x.remove_file_by_key(&EncodingKey::from_bytes(key16(model.files[*f].id))) } else { x.remove_file(*f) };
+                let key = model.files[*f].key;
+                let carriers = if *via == 1 { model.carriers(key) } else { Vec::new() };
+                let ok = if *via == 1 { x.remove_file_by_key(&EncodingKey::from_bytes(key16(key))) } else { x.remove_file(*f) };
                 if !ok {
                     refused_valid = Some("remove_file returned false".into());
                     break;
+                }
+                if carriers.len() > 1 {
+                    // the key is listed more than once: adopt the builder's (defensible) choice of what goes
+                    rc.cnt.add("step.remove_file_by_key(key-listed-more-than-once)", 1);
+                    let before = model_rows(&model);
+                    let after = builder_rows(&x);
+                    match by_key_removal_outcome(&before, &after, &carriers) {
+                        Some(gone) => {
+                            rc.cnt.add(if gone.len() == carriers.len() { "by_key_removal.outcome=all-entries-of-the-key" } else if gone[0] == carriers[0] { "by_key_removal.outcome=first-entry-of-the-key" } else { "by_key_removal.outcome=another-single-entry-of-the-key" }, 1);
+                            other_outcome = gone != carriers[..1];
+                            resolved_removal = Some(gone);
+                        }
+                        None => {
+                            by_key_violation(ctx, fam, rclass, detail(), si, &before, &after, &carriers);
+                            return;
+                        }
+                    }
                 }
                 B::D(x)
             }
@@ -1019,10 +1126,10 @@ fn run_program(rc: &mut RunCtx, kind: Kind, steps: &[Step], rng: &mut Rng) {
                 B::D(x)
             }
             // ---------------- coverage-driven extension: tagged add, re-key, clear, reload ----------------
-            (B::I(x), Step::AddFileTagged { id, size, tags, .. }) => {
+            (B::I(x), Step::AddFileTagged { id, key, size, tags, .. }) => {
                 let names: Vec<String> = tags.iter().map(|t| tname(*t)).collect();
                 let refs: Vec<&str> = names.iter().map(String::as_str).collect();
-                match x.add_file_with_tags(path_of(*id), ContentKey::from_bytes(key16(*id)), *size as u32, &refs) {
+                match x.add_file_with_tags(path_of(*id), ContentKey::from_bytes(key16(*key)), *size as u32, &refs) {
                     Ok(x) => B::I(x),
                     Err(e) => {
                         refused_valid = Some(format!("add_file_with_tags: {e}"));
@@ -1030,13 +1137,13 @@ fn run_program(rc: &mut RunCtx, kind: Kind, steps: &[Step], rng: &mut Rng) {
                     }
                 }
             }
-            (B::D(x), Step::AddFileTagged { id, size, prio, tags }) => {
+            (B::D(x), Step::AddFileTagged { id, key, size, prio, tags }) => {
                 let Kind::Download { checksums, flag_size, .. } = kind else { unreachable!() };
                 let names: Vec<String> = tags.iter().map(|t| tname(*t)).collect();
                 let refs: Vec<&str> = names.iter().map(String::as_str).collect();
                 let flags = (flag_size > 0 && id % 2 == 0).then(|| vec![*id as u8; flag_size as usize]);
                 let tag_arg: Option<&[&str]> = if refs.is_empty() && id % 2 == 0 { None } else { Some(&refs) };
-                match x.add_file_with_properties(EncodingKey::from_bytes(key16(*id)), *size, *prio, checksums.then_some(*id ^ 0xa5a5_a5a5), flags, tag_arg) {
+                match x.add_file_with_properties(EncodingKey::from_bytes(key16(*key)), *size, *prio, checksums.then_some(*id ^ 0xa5a5_a5a5), flags, tag_arg) {
                     Ok(x) => B::D(x),
                     Err(e) => {
                         refused_valid = Some(format!("add_file_with_properties: {e}"));
@@ -1044,8 +1151,8 @@ fn run_program(rc: &mut RunCtx, kind: Kind, steps: &[Step], rng: &mut Rng) {
                     }
                 }
             }
-            (B::D(mut x), Step::Rekey { f, id }) => {
-                if !x.update_file_key(*f, EncodingKey::from_bytes(key16(*id))) {
+            (B::D(mut x), Step::Rekey { f, key }) => {
+                if !x.update_file_key(*f, EncodingKey::from_bytes(key16(*key))) {
                     refused_valid = Some("update_file_key returned false".into());
                     break;
                 }
@@ -1073,15 +1180,23 @@ fn run_program(rc: &mut RunCtx, kind: Kind, steps: &[Step], rng: &mut Rng) {
             },
             // ---------------- size ----------------
             (B::S(x), Step::AddTag { name, ttype }) => B::S(x.add_tag(name.clone(), ttype_of(*ttype))),
-            (B::S(x), Step::AddFile { id, size, .. }) => {
+            (B::S(x), Step::AddFile { key, size, .. }) => {
                 let Kind::Size { ekey_size, .. } = kind else { unreachable!() };
-                B::S(x.add_entry(key16(*id)[..ekey_size as usize].to_vec(), *size))
+                B::S(x.add_entry(key16(*key)[..ekey_size as usize].to_vec(), *size))
             }
             (B::S(x), Step::Assoc { f, t, .. }) => B::S(x.tag_file(*t, *f)),
             (B::S(x), _) => B::S(x),
         });
-        model.apply(s);
-        let _ = si;
+        match resolved_removal.take() {
+            Some(gone) => model.remove_positions(&gone),
+            None => model.apply(s),
+        }
+        if other_outcome {
+            // the later steps were generated for the predicted outcome (positions, counts): the program ends here and
+            // what was assembled so far is judged
+            rc.cnt.add("by_key_removal.outcome_differs_from_prediction(program ends at that step)", 1);
+            break;
+        }
     }
     if let Some(why) = refused_valid {
         // "Not flagged: builder refusals" — recorded, the program ends here
@@ -1167,10 +1282,12 @@ fn run_program(rc: &mut RunCtx, kind: Kind, steps: &[Step], rng: &mut Rng) {
                 }
                 for i in pos {
                     let want_tags: Vec<&str> = (0..nt).filter(|&t| member[t][i]).map(|t| model.tags[t].name.as_str()).collect();
-                    let key = EncodingKey::from_bytes(key16(model.files[i].id));
+                    let key = EncodingKey::from_bytes(key16(model.files[i].key));
                     let f = x.get_file(i);
                     let f_ok = f.is_some_and(|e| e.encoding_key == key && e.file_size.as_u64() == model.files[i].size && e.priority == model.files[i].prio);
-                    if x.get_tags_for_file(i) != want_tags || !x.has_file(&key) || x.find_file_index(&key) != Some(i) || !f_ok {
+                    // a key that several files carry is found at one of them (which one is left open)
+                    let found_ok = x.find_file_index(&key).is_some_and(|j| j < n && model.files[j].key == model.files[i].key);
+                    if x.get_tags_for_file(i) != want_tags || !x.has_file(&key) || !found_ok || !f_ok {
                         bs_bad("get_tags_for_file/has_file/find_file_index/get_file", json!({"index": i, "tags": x.get_tags_for_file(i), "find_file_index": x.find_file_index(&key), "has_file": x.has_file(&key), "get_file_matches": f_ok}), json!({"tags": want_tags}));
                         return;
                     }
@@ -1187,6 +1304,32 @@ fn run_program(rc: &mut RunCtx, kind: Kind, steps: &[Step], rng: &mut Rng) {
                 if !refused || !same || cfg.is_valid_for_version(0) || cfg.is_valid_for_version(4) {
                     bs_bad("out-of-range remove/update", json!({"refused": refused, "state_unchanged": same}), json!({"refused": true, "state_unchanged": true}));
                     return;
+                }
+                // removal by a key that several files carry, on a copy: one entry of the key or all of them leave, every
+                // other file stays as it was (the same judgement as for such a step inside the program)
+                let mut by_count: HashMap<u32, Vec<usize>> = HashMap::new();
+                for (i, f) in model.files.iter().enumerate() {
+                    by_count.entry(f.key).or_default().push(i);
+                }
+                let mut repeated: Vec<&Vec<usize>> = by_count.values().filter(|c| c.len() > 1).collect();
+                repeated.sort();
+                if !repeated.is_empty() {
+                    rc.cnt.add("programs.download_with_a_key_listed_more_than_once", 1);
+                    let before = model_rows(&model);
+                    for _ in 0..2.min(repeated.len()) {
+                        let carriers = repeated[rng.usize_below(repeated.len())];
+                        let mut y = x.clone_builder();
+                        if !y.remove_file_by_key(&EncodingKey::from_bytes(key16(model.files[carriers[0]].key))) {
+                            rc.cnt.add("builder.refused_a_valid_step(observation)", 1);
+                            continue;
+                        }
+                        let after = builder_rows(&y);
+                        rc.cnt.add("builder_state.remove_file_by_key(key-listed-more-than-once)_on_a_copy", 1);
+                        if by_key_removal_outcome(&before, &after, carriers).is_none() {
+                            by_key_violation(ctx, fam, cond, detail(), steps.len(), &before, &after, carriers);
+                            return;
+                        }
+                    }
                 }
                 rc.cnt.add("builder_state.download_probes", 1);
             }
@@ -1302,6 +1445,9 @@ fn run_program(rc: &mut RunCtx, kind: Kind, steps: &[Step], rng: &mut Rng) {
     if matches!(kind, Kind::Download { .. }) && model.files.iter().any(|f| f.prio == i8::MIN) && model.files.iter().any(|f| f.prio == i8::MAX) {
         rc.cnt.add("programs.download_with_priority_-128_and_127", 1);
     }
+    if model.files.iter().map(|f| f.key).collect::<BTreeSet<u32>>().len() < n {
+        rc.cnt.add("programs.with_a_key_listed_more_than_once", 1);
+    }
     ctx.obs_max("max_file_count", n as u64);
     ctx.obs_max("max_tag_count", nt as u64);
 
@@ -1340,7 +1486,7 @@ fn run_program(rc: &mut RunCtx, kind: Kind, steps: &[Step], rng: &mut Rng) {
     let all_of = |s: &[usize]| -> Vec<usize> { (0..n).filter(|&i| s.iter().all(|&t| member[t][i])).collect() };
     let any_of = |s: &[usize]| -> Vec<usize> { (0..n).filter(|&i| s.iter().any(|&t| member[t][i])).collect() };
     let size_sum = |v: &[usize]| -> u64 { v.iter().map(|&i| model.files[i].size).sum() };
-    let keys_ok = |v: &[(usize, &[u8; 16])]| v.iter().all(|(i, k)| *i < n && **k == key16(model.files[*i].id));
+    let keys_ok = |v: &[(usize, &[u8; 16])]| v.iter().all(|(i, k)| *i < n && **k == key16(model.files[*i].key));
 
     match &parsed {
         P::I(m) => {
@@ -1816,7 +1962,7 @@ fn run_program(rc: &mut RunCtx, kind: Kind, steps: &[Step], rng: &mut Rng) {
             }
             for (i, f) in model.files.iter().enumerate() {
                 let Kind::Size { ekey_size, .. } = kind else { unreachable!() };
-                if m.entries[i].esize != f.size || m.entries[i].key != key16(f.id)[..ekey_size as usize] {
+                if m.entries[i].esize != f.size || m.entries[i].key != key16(f.key)[..ekey_size as usize] {
                     bad("entry.esize/key", json!([m.entries[i].esize.to_string()]), json!([f.size.to_string()]), json!({"index": i}));
                     return;
                 }
@@ -1844,7 +1990,7 @@ fn run_program(rc: &mut RunCtx, kind: Kind, steps: &[Step], rng: &mut Rng) {
             let mut ok = d.n == n && d.tags.len() == nt && d.keys.len() == n;
             if ok {
                 for (i, f) in model.files.iter().enumerate() {
-                    let k = key16(f.id);
+                    let k = key16(f.key);
                     if d.keys[i] != k[..d.keys[i].len()] || d.sizes[i] != f.size || (!d.prios.is_empty() && d.prios[i] != f.prio) {
                         ok = false;
                     }
@@ -1885,7 +2031,7 @@ fn run_program(rc: &mut RunCtx, kind: Kind, steps: &[Step], rng: &mut Rng) {
     if let Some(w) = rc.log.as_mut() {
         let klen = if let Kind::Size { ekey_size, .. } = kind { ekey_size as usize } else { 16 };
         let line = json!({"kind": fam, "version": label, "hex": hex::encode(&bytes), "n": n,
-            "keys": model.files.iter().map(|f| hex::encode(&key16(f.id)[..klen])).collect::<Vec<_>>(),
+            "keys": model.files.iter().map(|f| hex::encode(&key16(f.key)[..klen])).collect::<Vec<_>>(),
             "sizes": model.files.iter().map(|f| f.size.to_string()).collect::<Vec<_>>(),
             "tags": model.tags.iter().enumerate().map(|(t, tag)| json!({"name": tag.name, "type": tag.ttype, "files": set_of(t)})).collect::<Vec<_>>()});
         let _ = writeln!(w, "{line}");
@@ -1956,7 +2102,7 @@ fn sorted(mut v: Vec<usize>) -> Vec<usize> {
 fn main() {
     let ctx = Ctx::init("C19", "exploration");
     ctx.set_rule(
-        "one case = one builder program (5..=120 random steps over add tag / add file / associate (4 API variants) / dissociate / remove file (by index or key) / remove tag / update size+priority (setters or get_file_mut) / add file with tags in one call / re-key a file / clear / reload (build -> serialise -> parse -> Builder::from_manifest, the program continues on the rebuilt builder) / deliberately invalid steps, then fix-up steps to an exact final file count and tag count, then a pattern that tags the last file) run against InstallManifestBuilder (V1, and V2 = the built manifest given the V2 header and file-type bytes), DownloadManifestBuilder v1/v2/v3 (new() or the preset constructors) (checksums, flag sizes 0..4, base priority over i8) or SizeManifestBuilder v1/v2, followed by build -> serialise -> parse and comparison of every tag, every tag pair and 30 random tag subsets (all-of, any-of, platform pairs, priority categories and ranges, size totals) with a set model tag -> set<file id>, the builder's own state queries before the build, tag mask algebra (intersect / union / positions beyond the mask), tag-level platform / locale / name filters, batch tag analysis vs single predicates, statistics that are counts or size totals, priority analysis and download plans (ceiling and category filters, order, totals, breakdown), selections by extension, and by an independent MSB-first decode of the serialised bytes (Rust here, Python over the event log); every third program goes through the CascFormat trait entry points. The sweep gives every final file count 0..=70 x every manifest kind (5) x at least two tag counts, then random larger counts; tag counts 0..=20. non-trivial = final file count not a multiple of 8 or the program contains a removal; distinct = hash of (kind, serialised bytes).",
+        "one case = one builder program (5..=120 random steps over add tag / add file / associate (4 API variants) / dissociate / remove file (by index or by key; in half of the programs one add in 4 / 10 / 25 repeats the key of a file that is already listed and a re-key may take another file's key, so a key can be carried by several files — removal by such a key may take one of its entries or all of them and nothing else) / remove tag / update size+priority (setters or get_file_mut) / add file with tags in one call / re-key a file / clear / reload (build -> serialise -> parse -> Builder::from_manifest, the program continues on the rebuilt builder) / deliberately invalid steps, then fix-up steps to an exact final file count and tag count, then a pattern that tags the last file) run against InstallManifestBuilder (V1, and V2 = the built manifest given the V2 header and file-type bytes), DownloadManifestBuilder v1/v2/v3 (new() or the preset constructors) (checksums, flag sizes 0..4, base priority over i8) or SizeManifestBuilder v1/v2, followed by build -> serialise -> parse and comparison of every tag, every tag pair and 30 random tag subsets (all-of, any-of, platform pairs, priority categories and ranges, size totals) with a set model tag -> set<file id>, the builder's own state queries before the build, tag mask algebra (intersect / union / positions beyond the mask), tag-level platform / locale / name filters, batch tag analysis vs single predicates, statistics that are counts or size totals, priority analysis and download plans (ceiling and category filters, order, totals, breakdown), selections by extension, and by an independent MSB-first decode of the serialised bytes (Rust here, Python over the event log); every third program goes through the CascFormat trait entry points. The sweep gives every final file count 0..=70 x every manifest kind (5) x at least two tag counts, then random larger counts; tag counts 0..=20. non-trivial = final file count not a multiple of 8 or the program contains a removal; distinct = hash of (kind, serialised bytes).",
     );
     ctx.assume("the set model in the harness (file ids, positions shift down on removal) is the meaning of 'the files that were associated'");
     ctx.assume("the byte layouts used by the independent readers come from the format descriptions in the module docs (header fields, entry fields, tag = cstring + u16 BE type + ceil(n/8) mask bytes)");
@@ -2104,7 +2250,7 @@ fn main() {
         ctx.inconclusive(&format!("tag counts never reached: {missing_t:?}"));
     }
     ctx.set_extra("sweep_coverage", Value::Object(cov_json));
-    for k in ["step.reload(from_manifest)", "step.add_file_with_tags", "step.update_file_key", "step.clear", "query.download_plans", "programs.install-v2", "programs.through_CascFormat_build+parse", "builder_state.download_probes", "builder_state.install_probes", "install.extension_queries", "builder.download_preset_constructors", "step.remove_file", "step.remove_tag", "step.dissociate", "programs.with_file_size=2^40-1", "programs.download_with_priority_-128_and_127", "programs.file_count>70", "query.entries_for_platform", "independent_reader.manifests_decoded"] {
+    for k in ["step.reload(from_manifest)", "step.add_file_with_tags", "step.update_file_key", "step.clear", "query.download_plans", "programs.install-v2", "programs.through_CascFormat_build+parse", "builder_state.download_probes", "builder_state.install_probes", "install.extension_queries", "builder.download_preset_constructors", "step.remove_file", "step.remove_file_by_key(key-listed-more-than-once)", "builder_state.remove_file_by_key(key-listed-more-than-once)_on_a_copy", "programs.with_a_key_listed_more_than_once", "step.remove_tag", "step.dissociate", "programs.with_file_size=2^40-1", "programs.download_with_priority_-128_and_127", "programs.file_count>70", "query.entries_for_platform", "independent_reader.manifests_decoded"] {
         if ctx.get_obs(k) == 0 {
             ctx.inconclusive(&format!("situation never reached: {k}"));
         }
